@@ -166,3 +166,62 @@ def taint_before(fn, before, is_source):
             break
         body.append(s)
     return t, (t.block(body, set(), []) or set())
+
+
+def stmts_with_conds(stmts, conds=()):
+    """[(simple statement, path conditions)] of a statement list (same guard-clause treatment as Taint.block)"""
+    out = []
+    conds = list(conds)
+    for s in stmts:
+        if isinstance(s, (ast.FunctionDef, ast.AsyncFunctionDef, ast.ClassDef)):
+            continue
+        if isinstance(s, ast.If):
+            out += stmts_with_conds(s.body, conds + [(s.test, True)])
+            out += stmts_with_conds(s.orelse, conds + [(s.test, False)])
+            t1, t2 = _terminates(s.body), bool(s.orelse) and _terminates(s.orelse)
+            if t1 and t2:
+                break
+            if t1:
+                conds = conds + [(s.test, False)]
+            elif t2:
+                conds = conds + [(s.test, True)]
+            continue
+        if isinstance(s, (ast.For, ast.AsyncFor, ast.While)):
+            out += stmts_with_conds(s.body, conds)
+            out += stmts_with_conds(s.orelse, conds)
+            continue
+        if isinstance(s, ast.Try):
+            out += stmts_with_conds(s.body, conds)
+            for h in s.handlers:
+                out += stmts_with_conds(h.body, conds + [(h, True)])
+            out += stmts_with_conds(s.orelse, conds)
+            out += stmts_with_conds(s.finalbody, conds)
+            continue
+        if isinstance(s, (ast.With, ast.AsyncWith)):
+            out += stmts_with_conds(s.body, conds)
+            continue
+        out.append((s, list(conds)))
+        if isinstance(s, (ast.Return, ast.Raise, ast.Continue, ast.Break)):
+            break
+    return out
+
+
+def holds(conds, pred):
+    """does some path condition satisfy pred(test, polarity)?  `not X` is unwrapped; `A and B` held True gives A and B;
+    `A or B` held False gives not A and not B"""
+    def atoms(test, pol):
+        while isinstance(test, ast.UnaryOp) and isinstance(test.op, ast.Not):
+            test, pol = test.operand, not pol
+        if isinstance(test, ast.BoolOp):
+            if (isinstance(test.op, ast.And) and pol) or (isinstance(test.op, ast.Or) and not pol):
+                for v in test.values:
+                    yield from atoms(v, pol)
+                return
+        yield test, pol
+    for test, pol in conds:
+        if not isinstance(test, ast.expr):
+            continue
+        for t, p in atoms(test, pol):
+            if pred(t, p):
+                return True
+    return False
